@@ -164,6 +164,18 @@ theorem inv_step (f : Facts) (hf : f.good = true) (s s' : St) (e : Ev) (h : Inv 
   | send m =>
     simp only [step] at hs
     split at hs <;> (simp only [Option.some.injEq] at hs; subst hs; exact ⟨i1, i2, i3⟩)
+  | sendBegin m =>
+    simp only [step] at hs
+    split at hs
+    · simp at hs
+    · split at hs <;> (simp only [Option.some.injEq] at hs; subst hs; exact ⟨i1, i2, i3⟩)
+  | sendEnd m =>
+    simp only [step] at hs
+    split at hs
+    · simp at hs
+    · split at hs
+      · split at hs <;> (simp only [Option.some.injEq] at hs; subst hs; exact ⟨i1, i2, i3⟩)
+      · simp only [Option.some.injEq] at hs; subst hs; exact ⟨i1, i2, i3⟩
 
 theorem inv_run (f : Facts) (hf : f.good = true) (evs : List Ev) :
     ∀ (s s' : St), Inv s → run f s evs = some s' → Inv s' := by
@@ -212,20 +224,70 @@ theorem C11_facts_good : Mcp.Gen.handleGetFacts.good = true := by decide
 /-- Witness for the bad region "exit deletes by key" (the tree before its `fix:` commit): after a reconnect the old
     handler's exit evicts the new stream and a send fails although stream 1 is listening. -/
 theorem C11_bad_exit_witness :
-    ∃ s, run ⟨false, false⟩ {} [.open_ 0, .store 0, .flush 0, .open_ 1, .store 1, .flush 1, .wake 0, .exit_ 0, .send 7] = some s ∧
+    ∃ s, run ⟨false, false, true⟩ {} [.open_ 0, .store 0, .flush 0, .open_ 1, .store 1, .flush 1, .wake 0, .exit_ 0, .send 7] = some s ∧
       listening s 1 = true ∧ s.failed = [7] ∧ s.delivered = [] := by
   refine ⟨_, rfl, ?_⟩; decide
 
 /-- Witness for the bad region "headers flushed before the table store": the client has the new stream's headers,
     yet a send is delivered on the old stream (or fails, for a first stream). -/
 theorem C11_bad_order_witness :
-    (∃ s, run ⟨true, true⟩ {} [.open_ 0, .flush 0, .store 0, .open_ 1, .flush 1, .send 7] = some s ∧
+    (∃ s, run ⟨true, true, true⟩ {} [.open_ 0, .flush 0, .store 0, .open_ 1, .flush 1, .send 7] = some s ∧
       listening s 1 = true ∧ s.delivered = [(0, 7)]) ∧
-    (∃ s, run ⟨true, true⟩ {} [.open_ 0, .flush 0, .send 7] = some s ∧ listening s 0 = true ∧ s.failed = [7]) := by
+    (∃ s, run ⟨true, true, true⟩ {} [.open_ 0, .flush 0, .send 7] = some s ∧ listening s 0 = true ∧ s.failed = [7]) := by
   refine ⟨⟨_, rfl, ?_⟩, ⟨_, rfl, ?_⟩⟩ <;> decide
 
+private theorem step_crashed (f : Facts) (hc : f.closedMarkOnExit = true) (s s' : St) (e : Ev)
+    (h : step f s e = some s') : s'.crashed = s.crashed := by
+  cases e with
+  | open_ n => simp only [step] at h; split at h <;> simp at h; subst h; rfl
+  | flush n => simp only [step] at h; split at h <;> simp at h; subst h; rfl
+  | store n => simp only [step] at h; split at h <;> simp at h; subst h; rfl
+  | clientClose n => simp only [step] at h; split at h <;> simp at h; subst h; rfl
+  | wake n => simp only [step] at h; split at h <;> simp at h; subst h; rfl
+  | exit_ n => simp only [step] at h; split at h <;> simp at h; subst h; rfl
+  | delete => simp only [step] at h; split at h <;> (simp at h; subst h; rfl)
+  | send m => simp only [step] at h; split at h <;> (simp at h; subst h; rfl)
+  | sendBegin m =>
+    simp only [step] at h
+    split at h
+    · simp at h
+    · split at h <;> (simp at h; subst h; rfl)
+  | sendEnd m =>
+    simp only [step, hc, ite_true] at h
+    split at h
+    · simp at h
+    · split at h <;> (simp at h; subst h; rfl)
+
+/-- **A send never writes to a finished response.** With the closed mark (set by the exiting handler under the
+    connection's write lock and checked by writers under that lock) no schedule — whatever the interleaving of a
+    send's lookup and write with the teardown of the stream it found — makes a write hit a response whose handler has
+    returned. -/
+theorem C11_no_write_after_return (f : Facts) (hc : f.closedMarkOnExit = true) (evs : List Ev) :
+    ∀ (s s' : St), s.crashed = [] → run f s evs = some s' → s'.crashed = [] := by
+  induction evs with
+  | nil => intro s s' h hr; simp [run] at hr; subst hr; exact h
+  | cons e es ih =>
+    intro s s' h hr
+    simp only [run] at hr
+    split at hr
+    · simp at hr
+    · rename_i s1 hs1
+      refine ih s1 s' ?_ hr
+      rw [step_crashed f hc s s1 e hs1]; exact h
+
+/-- The regenerated fact: today's `handleGet` exit path sets the mark and both writers check it. -/
+theorem C11_closed_mark_fact : Mcp.Gen.handleGetFacts.closedMarkOnExit = true := by decide
+
+/-- Witness for the bad region (no closed mark — the tree before its `fix:` commit): a send looks the stream up, the
+    client drops the stream, the handler wakes, cleans up and returns, then the send writes: a write on a finished
+    response (in the real server: a nil-pointer panic inside net/http in the goroutine that called SendNotification). -/
+theorem C11_write_after_return_witness :
+    ∃ s, run ⟨false, true, false⟩ {} [.open_ 0, .store 0, .flush 0, .sendBegin 7, .clientClose 0, .wake 0, .exit_ 0, .sendEnd 7] = some s ∧
+      s.crashed = [7] := by
+  refine ⟨_, rfl, ?_⟩; decide
+
 -- non-vacuity: reconnect under the good facts, then a send lands on the new stream
-example : ∃ s, run ⟨false, true⟩ {} [.open_ 0, .store 0, .flush 0, .open_ 1, .store 1, .flush 1, .wake 0, .exit_ 0, .send 7] = some s ∧
+example : ∃ s, run ⟨false, true, true⟩ {} [.open_ 0, .store 0, .flush 0, .open_ 1, .store 1, .flush 1, .wake 0, .exit_ 0, .send 7] = some s ∧
     listening s 1 = true ∧ s.delivered = [(1, 7)] ∧ s.failed = [] := by
   refine ⟨_, rfl, ?_⟩; decide
 
